@@ -7,7 +7,7 @@ import YaegiVerif.Model.ConstClass
 import YaegiVerif.Generated.C03
 import YaegiVerif.Expected.C03
 /- Line-protocol front end for C03 (glue, not a proof obligation).
-   repr KIND INT            → y=<true|false> g=<true|false> gap=<0|1> fix=<true|false>
+   repr KIND INT            → y=<true|false> yx=<true|false> g=<true|false>
    decl CTX TYPE EXPR       → y=<outcome> g=<outcome> cls=<class>      CTX ∈ var const varT constT, TYPE = - or a basic type
    block (SPEC…)            → same; SPEC = (spec TYPE EXPR) | (spec -)  (implicit repetition)
    EXPR = (int N) (rune N) (flt NUM DEN) (bool 0|1) (str HEX) (iota) (un ACT X) (bin ACT X Y) (conv TYPE X) (par X) (len X)
@@ -128,7 +128,7 @@ def handle (args : List Sexp) : String :=
   | [.atom "repr", .atom kind, v] =>
     (match IKind.ofName? kind, v.int? with
      | some k, some v =>
-       s!"y={reprY Generated.C03.reprFacts k v} yx={reprY Expected.C03.reprFacts k v} g={Spec.reprGo k v} gap={if inSignedGap k v then 1 else 0} fix={reprFixed Generated.C03.reprFacts k v}"
+       s!"y={reprY Generated.C03.reprFacts k v} yx={reprY Expected.C03.reprFacts k v} g={Spec.reprGo k v}"
      | _, _ => "bad-op")
   | [.atom "decl", .atom ctx, t, e] =>
     (match parseType t, parseExpr e with
